@@ -22,6 +22,9 @@ type Term struct {
 	// Redecl: declared once without and once more with its explicit number
 	// (as examples/*.y do: %token <val> NUM ... %token NUM 100)
 	Redecl bool `json:"redecl,omitempty"`
+	// TagViaType: the value tag is declared with a separate "%type <tag> NAME"
+	// line instead of "%token <tag> NAME"
+	TagViaType bool `json:"tagviatype,omitempty"`
 }
 
 func (t Term) IsLit() bool { return t.Lit != "" }
@@ -126,6 +129,11 @@ type Spec struct {
 	Start    int         `json:"start"`
 	Prec     []PrecLevel `json:"prec,omitempty"`
 	Prologue string      `json:"prologue"` // text between %{ and %}
+	// Prologue2: when non-empty, a second %{ %} block after the first; yaccgo
+	// concatenates the blocks
+	Prologue2 string `json:"prologue2,omitempty"`
+	// TwoPrologues: SetLang also writes a second, language-specific block
+	TwoPrologues bool `json:"twoprologues,omitempty"`
 	Union    string      `json:"union"`    // text between %union { and }
 	Epilogue string      `json:"epilogue"` // text after the second %%
 	NoUnion  bool        `json:"nounion,omitempty"`
@@ -314,6 +322,9 @@ func (s *Spec) Render(o RenderOpts) string {
 	}
 	// prologue
 	toks = append(toks, tok{text: "%{" + s.Prologue + "%}", kind: kRaw, nl: true})
+	if s.Prologue2 != "" {
+		toks = append(toks, tok{text: "%{" + s.Prologue2 + "%}", kind: kRaw, nl: true})
+	}
 	if !s.NoUnion {
 		toks = append(toks, tok{text: "%union {" + s.Union + "}", kind: kPunct, nl: true})
 	}
@@ -325,7 +336,7 @@ func (s *Spec) Render(o RenderOpts) string {
 			return
 		}
 		w("%token")
-		if pending[0].Tag != "" {
+		if pending[0].Tag != "" && !pending[0].TagViaType {
 			p("<")
 			w(pending[0].Tag)
 			p(">")
@@ -355,7 +366,7 @@ func (s *Spec) Render(o RenderOpts) string {
 		// as that token's alias (Parser.go:parseTokendef), so a literal never
 		// follows a name on the same %token line
 		aliasPos := len(pending) > 0 && t.IsLit() && !pending[len(pending)-1].IsLit()
-		if len(pending) > 0 && (pending[0].Tag != t.Tag || aliasPos || L.Choice(2) == 0) {
+		if len(pending) > 0 && (pending[0].Tag != t.Tag || pending[0].TagViaType || t.TagViaType || aliasPos || L.Choice(2) == 0) {
 			if pending[0].Tag == t.Tag {
 				st.SplitDecls++
 			}
@@ -404,6 +415,16 @@ func (s *Spec) Render(o RenderOpts) string {
 		pn = append(pn, n)
 	}
 	flushN()
+	for _, t := range s.Terms {
+		if t.TagViaType && t.Tag != "" && !t.IsLit() && t.Decl == "token" {
+			w("%type")
+			p("<")
+			w(t.Tag)
+			p(">")
+			w(t.Name)
+			nl()
+		}
+	}
 	if !(s.OmitStart && s.NTs[s.Start].Name == "start") {
 		w("%start")
 		w(s.NTs[s.Start].Name)
